@@ -1,4 +1,7 @@
 import FitModel.WF
+import FitProofs.TypedEncode
+import FitProofs.Chain
+import FitProps.C01
 import FitModel.Gen.Profile
 /-!
   C15 — profile tables, message structs and all-invalid constructors agree everywhere.
@@ -82,5 +85,22 @@ theorem consts_agree : mnFileId = Gen.mnFileId ∧ mnFileCreator = Gen.mnFileCre
 /-- non-vacuity: record.distance (message 20, field 5) is a uint32 scalar whose invalid is 0xFFFFFFFF -/
 example : ∃ f ∈ Gen.m20.fields, f.num = 5 ∧ slotOfType f.tcode = some (.sc (.u 32)) ∧
     invalidOfType f.tcode = some (.u 0xFFFFFFFF) := by decide
+
+/-! ### "no profile-driven reflection access can fail" -/
+
+/-- **decoder side**: on any profile with `ProfileWF` no decode entry point reaches a failing
+    reflection access (`SetUint` on the wrong kind, `Field(i)` out of range, a nil constructor, …) —
+    whatever the input, options, package state and read schedule -/
+theorem decoder_accesses_never_fail (P : Profile) (h : ProfileWF P = true) (o : Opts) (m : Mode) (g : Globals) (r : Reader) :
+    (decode P o m g r).1.panic = false :=
+  C01.decode_never_panics P h o m g r
+
+/-- **encoder side**: on any profile with `ProfileWF`, `Encode` of a File whose messages are well
+    typed (what Go's type system guarantees of every File a caller can build, and what `Decode`
+    returns: `C07.decoded_file_typed`) reaches no failing type assertion, missing lookup entry or
+    out-of-range struct field -/
+theorem encoder_accesses_never_fail (P : Profile) (h : ProfileWF P = true) (arch : Endian) (f : FileSt)
+    (hf : FileTyped P f) (hc : f.cidx.isSome = true) : encode P arch f ≠ .panic :=
+  encode_no_panic P h arch f hf hc
 
 end Fit.Props.C15
